@@ -237,11 +237,22 @@ def check_input(
             pos_args = bound_args.arguments
 
             if isinstance(obj_getter, int):
+                arg_idx = obj_getter + 1 if is_method else obj_getter
+                arg_name = (
+                    [*sig.parameters][arg_idx]
+                    if len(args) <= arg_idx < len(sig.parameters)
+                    else None
+                )
                 try:
-                    arg_idx = obj_getter + 1 if is_method else obj_getter
-                    args[arg_idx] = schema.validate(
-                        args[arg_idx], *validate_args
-                    )
+                    if arg_name in kwargs:
+                        # the argument at this index was passed by keyword
+                        kwargs[arg_name] = schema.validate(
+                            kwargs[arg_name], *validate_args
+                        )
+                    else:
+                        args[arg_idx] = schema.validate(
+                            args[arg_idx], *validate_args
+                        )
                 except IndexError as exc:
                     raise IndexError(
                         f"error in check_input decorator of function '{wrapped.__name__}': the "
